@@ -165,6 +165,10 @@ def step (t : List String) : Option String :=
       let sb ← sb.toNat?; let rep ← rep.toNat?
       let owner ← ownerOf ((sbxOf sb).region.base + cellOff)
       pure s!"ok {fnameOf owner rep}"
+  | ["fctx", pos, sb, rep] => do
+      -- a function-pointer representation arriving with the sandbox context (call result, callback argument)
+      let sb ← sb.toNat?; let rep ← rep.toNat?
+      if pos == "result" ∨ pos == "cbarg" then pure s!"ok {fnameOf sb rep}" else none
   | ["rep", pos, sb, rep] => do
       let sb ← sb.toNat?; let rep ← rep.toNat?
       let r ← repOne pos sb (rep % 2 ^ 32)
@@ -197,6 +201,29 @@ def step (t : List String) : Option String :=
       | "arg" => pure s!"ok rep={toGuest s a}"
       | "argnull" => pure "ok rep=0"
       | _ => none
+  | ["malf", sb, ty, v, count] => do
+      let sb ← sb.toNat?; let v ← v.toNat?; let count ← count.toNat?
+      -- sizeof(T) of the application type (the extent check of malloc_in_sandbox is done in host elements)
+      let size ← match ty with | "char" => some 1 | "int" => some 4 | "llong" => some 8 | "st" => some 24 | _ => none
+      match mallocIn (sbxOf sb) (v % 2 ^ 32) (count % 2 ^ 32) size with
+      | none => pure "abort"
+      | some p => pure s!"ok {showAddr 2 p}"
+  | ["pfoot", pos, sb, tgt] => do
+      let sb ← sb.toNat?
+      let a ← target sb tgt
+      let s := sbxOf sb
+      let cell := s.region.base + cellOff
+      let rep := ptrStore 16 4 cell a
+      let w4 (m : Mem) (off v : Nat) : Mem := m.write off (encodeLE 4 v)
+      let m ← match pos with
+        | "cell" => some (w4 patMem cellOff rep)
+        | "cellnull" => some (w4 patMem cellOff 0)
+        | "arrel" | "field" => some (w4 patMem (cellOff + 8) rep)
+        | "arrelnull" | "fieldnull" => some (w4 patMem (cellOff + 8) 0)
+        | "arrwhole" => some (w4 (w4 (w4 (w4 patMem cellOff 0) (cellOff + 4) rep) (cellOff + 8) rep) (cellOff + 12) 0)
+        | "structwhole" => some (w4 (w4 (patMem.write cellOff [120]) (cellOff + 4) 7) (cellOff + 8) rep)
+        | _ => none
+      pure s!"ok win={(List.range 32).foldl (fun acc i => acc ++ hex2 (m (cellOff - 8 + i))) ""}"
   | ["accept", how, sb, tgt] => do
       let sb ← sb.toNat?
       let s := sbxOf sb
